@@ -38,15 +38,21 @@ fn polys_of(g: &G) -> Vec<Poly> {
     }
 }
 
-/// insert repeated vertices (same point set)
+/// insert repeated vertices (same point set): bit 0 = repeat one vertex of one ring (any position, including
+/// the first vertex, shells and holes), bit 1 = repeat the shell's closing vertex
 fn dup_vertices(g: &G, mode: u8, sel: u32) -> G {
     let f = |p: &Poly| -> Poly {
         let mut q = p.clone();
         if q.ext.len() >= 4 {
             if mode & 1 == 1 {
-                let i = 1 + (sel as usize % (q.ext.len() - 2));
-                let v = q.ext[i];
-                q.ext.insert(i, v);
+                let nr = 1 + q.holes.len();
+                let ri = (sel as usize >> 8) % nr;
+                let ring = if ri == 0 { &mut q.ext } else { &mut q.holes[ri - 1] };
+                if ring.len() >= 4 {
+                    let i = sel as usize % (ring.len() - 1);
+                    let v = ring[i];
+                    ring.insert(i, v);
+                }
             }
             if mode & 2 == 2 {
                 let v = *q.ext.last().unwrap();
@@ -131,7 +137,7 @@ impl Property for C04 {
         vec!["tolerance delta = 2^-20 x extent + 8 ulp(max|coord|): far above i_overlay's 2^-29 x extent fixed-point grid and never finer than f64 resolution at the offset".into()]
     }
     fn must_hit() -> Vec<&'static str> {
-        vec!["boundaries-intersect", "shared-edge", "nested", "identical", "empty-operand", "has-hole", "dup:closing-vertex", "dup:inner-vertex", "clip:along-boundary", "cw-shell"]
+        vec!["boundaries-intersect", "shared-edge", "nested", "identical", "empty-operand", "has-hole", "dup:closing-vertex", "dup:inner-vertex", "clip:along-boundary", "cw-shell", "unary_union:empty-member-first"]
     }
     fn show(c: &Case) -> Value {
         json!({"a": wkt(&c.a), "b": wkt(&c.b), "line": wkt(&c.line), "xf": c.xf, "flips": c.flips, "dup": c.dup})
@@ -305,6 +311,13 @@ impl Property for C04 {
                     }
                 })
                 .collect();
+            // an empty member (no rings, hence no winding of its own) may sit anywhere, also first
+            let mut members = members;
+            match (c.flips >> 4) & 7 {
+                0 => { members.insert(0, Polygon::new(LineString::new(vec![]), vec![])); obs.label("unary_union:empty-member-first"); }
+                1 => { members.push(Polygon::new(LineString::new(vec![]), vec![])); }
+                _ => {}
+            }
             if !members.is_empty() {
                 match guard(std::panic::AssertUnwindSafe(|| unary_union(members.iter()))) {
                     Ok(u) => {
